@@ -537,3 +537,15 @@ func valueAlternatives(v ssa.Value, pol bool, depth int) [][]Fact {
 	}
 	return out
 }
+
+// Trace renders the witness path of a search result.
+func (p PathResult) Trace(e *Engine) []string {
+	var w []string
+	for _, x := range p.Witness {
+		w = append(w, e.ipos(x))
+	}
+	if p.Target != nil {
+		w = append(w, "exit at "+e.ipos(p.Target))
+	}
+	return w
+}
